@@ -1,4 +1,5 @@
 import ZarrsModel.Model.ShardPD
+import ZarrsModel.Model.ShardPDAsync
 import ZarrsModel.Driver.C01
 /-
 driver handler for the sharding partial decoder (C02, verb `c02s`): the request carries the shard geometry, the
@@ -78,7 +79,9 @@ def handle (l : Line) : Option (List String × Option String) := do
   | [] => none
   | (ish, cfg) :: rest =>
     let cs : ChainS := .shard oa cfg ish es (buildS es rest leaf) ob
-    let pd := cs.partialDecoder ssh fill (storeHandle raw)
+    -- `route=async`: `Array::async_partial_decoder` = `ChainS.asyncPartialDecoder` (Model/ShardPDAsync.lean)
+    let pd := if l.get "route" == some "async" then cs.asyncPartialDecoder ssh fill (storeHandle raw)
+      else cs.partialDecoder ssh fill (storeHandle raw)
     let inb := rs.all (fun r => r.wf && r.inboundsShape ssh)
     -- `TransposePartialDecoder::partial_decode` rejects regions of the wrong rank; `transposePD` (Model/Partial.lean)
     -- does not model that test (such regions are outside C02), so with an outer transpose it is applied here
